@@ -361,3 +361,20 @@ package allocation
 //@   ensures [C03,C16:single-use] res != nil ==> exists k :: haskey(m.allocations, k) && valat(m.allocations, k).userID == userID && has(valat(m.allocations, k).tcpConnections, connectionID) && res == valat(m.allocations, k).tcpConnections[connectionID] && !old(atomic(valat(m.allocations, k).tcpConnections[connectionID].isBound)) && atomic(valat(m.allocations, k).tcpConnections[connectionID].isBound)
 //@   assigns atomics("allocation.tcpConnection.isBound"), timers
 //@   loop 0 invariant allocsNonNil(m) && (forall k :: haskey(m.allocations, k) ==> tcpConnsWF(valat(m.allocations, k)))
+
+//@      // ---- relay read loop: peer -> client (C02, C04, C05, C15)
+//@ spec func relayReady(a *Allocation, manager *Manager) bool = manager != nil && manager.log != nil && a.relayPacketConn != nil && a.TurnSocket != nil && a.fiveTuple != nil && a.log != nil && chansWF(a) && a.fiveTuple.SrcAddr != nil
+//@ spec func boundTo(a *Allocation, src net.Addr) bool = exists i :: 0 <= i && i < len(a.channelBindings) && addrEqual(a.channelBindings[i].Peer, src)
+
+//@ func (*Allocation).packetConnHandler
+//@   requires relayReady(a, manager)
+//@   requires allocOf(manager, a.fiveTuple.SrcAddr, a.fiveTuple.DstAddr, int(a.fiveTuple.Protocol)) != nil ==> closeReady(allocOf(manager, a.fiveTuple.SrcAddr, a.fiveTuple.DstAddr, int(a.fiveTuple.Protocol)))
+//@   at-call invoke net.PacketConn.ReadFrom assert [C02,C04:own-relay] recv == a.relayPacketConn && len(arg0) == 1600
+//@   at-call invoke net.PacketConn.WriteTo assert [C02,C04:to-owner] recv == a.TurnSocket && arg1 == a.fiveTuple.SrcAddr
+//@   at-call invoke net.PacketConn.WriteTo assert [C02:authorised] boundTo(a, srcAddr) || hasPerm(a, srcAddr)
+//@   at-call invoke net.PacketConn.WriteTo assert [C05:whole] n == dgLen
+//@   at-call invoke net.PacketConn.WriteTo assert [C02,C05,C08:channel-frame] channel != nil ==> addrEqual(channel.Peer, srcAddr) && be16(arg0, 0) == int(channel.Number) && be16(arg0, 2) == n && len(arg0) == 4 + pad4(n) && (forall i :: 0 <= i && i < n ==> arg0[4+i] == buffer[i])
+//@   at-call github.com/pion/stun/v3.Build assert [C05:data-indication] len(arg0) == 4 && typeis(arg0[2], proto.PeerAddress) && typeis(arg0[3], proto.Data) && isUDP(srcAddr) && sameSlice(unbox(arg0[2], proto.PeerAddress).IP, srcAddr.(*net.UDPAddr).IP) && unbox(arg0[2], proto.PeerAddress).Port == srcAddr.(*net.UDPAddr).Port && sameSlice(unbox(arg0[3], proto.Data), buffer[0:n]) && channel == nil && hasPerm(a, srcAddr)
+//@   at-call (*Manager).DeleteAllocation assert [C04,C15:own-tuple] recv == manager && arg0 == a.fiveTuple
+//@   loop 0 invariant relayReady(a, manager) && len(buffer) == 1600 && base(buffer) >= old(allocTop)
+//@   loop 0 invariant allocOf(manager, a.fiveTuple.SrcAddr, a.fiveTuple.DstAddr, int(a.fiveTuple.Protocol)) != nil ==> closeReady(allocOf(manager, a.fiveTuple.SrcAddr, a.fiveTuple.DstAddr, int(a.fiveTuple.Protocol)))
